@@ -1374,9 +1374,15 @@ namespace hgraph
         {
             auto  reduce_view = view.as<ReduceNodeView>();
             auto &storage     = *MemoryUtils::cast<ReduceNodeStorage>(reduce_view.internal_storage());
+            // Every combiner gets its stop attempt; the first failure is
+            // re-thrown once the node's own state has been reset.
+            FirstExceptionRecorder stop_errors;
             for (const auto *entry : storage.combiners)
             {
-                if (entry != nullptr && entry->graph.has_value()) { entry->graph.view().stop(); }
+                if (entry != nullptr && entry->graph.has_value())
+                {
+                    stop_errors.capture([&] { entry->graph.view().stop(); });
+                }
             }
             storage.evaluation_positions.clear();
             storage.modified_leaves.clear();
@@ -1384,6 +1390,7 @@ namespace hgraph
             storage.structural_positions.clear();
             storage.resume_candidate_plus_one = 0;
             storage.has_future_combiner_schedule = false;
+            stop_errors.rethrow_if_any();
         }
 
         void validate_reduce_node_spec(const NodeTypeMetaData &meta, const ReduceNodeSpec &spec)
